@@ -83,8 +83,21 @@ type Gate struct {
 	Search        bool
 	fnByName      map[string]*ssa.Function
 	nextDepthBase int
-	seq           int
-	Funcs         map[string]bool // functions evaluated (incl. inlined)
+	// ConstTables: a package-level variable that is written only by its
+	// initialiser (never assigned, never written through, never handed to code
+	// that could) reads as its initial value.
+	ConstTables bool
+	// Unroll: a range loop over a collection of small constant length is
+	// evaluated iteration by iteration instead of being cut at its header.
+	Unroll       bool
+	globalByName map[string]*ssa.Global
+	initMem      map[string]*E
+	initDone     map[*ssa.Package]bool
+	initTag      bool
+	constGl      map[*ssa.Global]bool
+	noHavoc      bool
+	seq          int
+	Funcs        map[string]bool // functions evaluated (incl. inlined)
 }
 
 func NewGate(p *Prog) *Gate {
@@ -142,6 +155,10 @@ type frame struct {
 	curBlock  *ssa.BasicBlock
 	loops     []*Loop
 	loopsOK   bool
+	presetPhi map[*ssa.Phi]*E               // unrolling: value of a header φ in the current iteration
+	edgeOv    map[[2]int]Ref                // unrolling: total condition of an edge leaving the unrolled region
+	exitRecs  map[*ssa.BasicBlock][]exitRec // unrolling: per iteration, the edges taken into a merge block
+	unrolled  map[*ssa.BasicBlock]bool      // headers that were unrolled
 	search    map[*Loop]*searchInfo
 	effStart  map[*ssa.BasicBlock]int // loop header -> number of effects when it was entered
 	depthBase int                     // number of search scopes enclosing this activation
@@ -200,7 +217,19 @@ func (g *Gate) eval(fn *ssa.Function, args []*E, bindings []*E, m *mem, base Ref
 		order = rpoLoops(fn, f.back, f.heads)
 	}
 	f.order = order
+	doneBlk := map[*ssa.BasicBlock]bool{}
 	for _, b := range order {
+		if doneBlk[b] {
+			continue
+		}
+		if g.Unroll && f.heads[b] {
+			if region, ok := f.tryUnroll(b); ok {
+				for x := range region {
+					doneBlk[x] = true
+				}
+				continue
+			}
+		}
 		f.block(b)
 	}
 	f.sum.Mem = map[string]*E{}
@@ -238,6 +267,9 @@ func (f *frame) edgeCond(p, b *ssa.BasicBlock) Ref {
 	rcP, ok := f.rc[p]
 	if !ok {
 		return False
+	}
+	if ov, ok := f.edgeOv[[2]int{p.Index, b.Index}]; ok {
+		return ov
 	}
 	if f.g.Search {
 		if l, x, isExit := f.searchExit(p, b); isExit {
@@ -433,6 +465,10 @@ func (f *frame) val(v ssa.Value) *E {
 		}
 		return u.ConstVal(v.Value, v.Type())
 	case *ssa.Global:
+		if f.g.globalByName == nil {
+			f.g.globalByName = map[string]*ssa.Global{}
+		}
+		f.g.globalByName[v.RelString(nil)] = v
 		return u.mk("global", v.RelString(nil), v.Type())
 	case *ssa.Function:
 		f.g.regFn(v)
@@ -478,6 +514,21 @@ func (f *frame) load(addr *E, typ types.Type) *E {
 	if v, ok := f.mem.m[f.memKey(addr)]; ok {
 		return f.underRC(v)
 	}
+	// a package-level table that only its initialiser writes
+	if f.g.ConstTables {
+		if v, ok := f.constLoad(addr); ok {
+			return v
+		}
+	}
+	// a small array value is the tuple of its elements as they are now
+	if at, ok := arrayOf(typ); ok && (addr.Op != "global" || f.g.ConstTables) {
+		args := make([]*E, 0, at.Len())
+		for i := int64(0); i < at.Len(); i++ {
+			ea := u.mk("iaddr", "", types.NewPointer(at.Elem()), addr, u.Int(i))
+			args = append(args, f.load(ea, at.Elem()))
+		}
+		return u.mk("array", typeStr(typ), typ, args...)
+	}
 	// a struct value is the tuple of its fields as they are now
 	if st, ok := structOf(typ); ok && addr.Op != "global" {
 		args := make([]*E, 0, 2*st.NumFields())
@@ -494,6 +545,9 @@ func (f *frame) load(addr *E, typ types.Type) *E {
 	case "iaddr":
 		return u.mk("index", "", typ, addr.Args[0], addr.Args[1])
 	case "global":
+		if f.g.initTag && strings.HasSuffix(addr.Aux, "init$guard") {
+			return u.Bool(False) // the initialiser runs once
+		}
 		return u.mk("gload", addr.Aux, typ)
 	case "alloc":
 		// load of a local that was never stored: zero value
@@ -548,6 +602,19 @@ func (f *frame) store(addr, val *E, rc Ref, in ssa.Instruction) {
 // the individual fields (no separate effects: the store is one effect).
 func (f *frame) storeFields(addr, val *E, rc Ref) {
 	u := f.g.U
+	if at, ok := arrayOf(val.Typ); ok && val.Op == "array" && int64(len(val.Args)) == at.Len() {
+		for i, ev := range val.Args {
+			ea := u.mk("iaddr", "", types.NewPointer(at.Elem()), addr, u.Int(int64(i)))
+			k := f.memKey(ea)
+			old, have := f.mem.m[k]
+			if !have {
+				old = f.loadNoMem(ea, at.Elem())
+			}
+			f.mem.m[k] = u.ITE(rc, ev, old)
+			f.storeFields(ea, ev, rc)
+		}
+		return
+	}
 	st, ok := structOf(val.Typ)
 	if !ok || !(val.Op == "struct" || val.Op == "zero") {
 		return
@@ -831,7 +898,7 @@ func (f *frame) call(in ssa.Instruction, c *ssa.CallCommon, rc Ref, typ types.Ty
 	e := u.mk("call", name, typ, append(args, u.mk("site", f.g.fresh("c"), nil))...)
 	f.addEffect(Effect{Cond: rc, Kind: "call", Call: e, Pos: in.Pos(), Ins: in})
 	// heap values forwarded so far may have been overwritten by the callee
-	if rc != False {
+	if rc != False && !f.g.noHavoc {
 		for k, old := range f.mem.m {
 			if strings.HasPrefix(k, "H:") {
 				f.mem.m[k] = u.ITE(rc, u.mk("havoc", f.g.fresh("h"), old.Typ), old)
@@ -889,6 +956,10 @@ func (f *frame) instr(b *ssa.BasicBlock, in ssa.Instruction, rc Ref) {
 	u := f.g.U
 	switch in := in.(type) {
 	case *ssa.Phi:
+		if v, ok := f.presetPhi[in]; ok {
+			f.env[in] = v
+			return
+		}
 		f.env[in] = f.phi(b, in, rc)
 	case *ssa.BinOp:
 		x, y := f.val(in.X), f.val(in.Y)
@@ -941,7 +1012,11 @@ func (f *frame) instr(b *ssa.BasicBlock, in ssa.Instruction, rc Ref) {
 		if !in.Heap || allocIsLocal(in) {
 			kind = "/local"
 		}
-		f.env[in] = u.mk("alloc", f.tag+":"+in.Name()+kind, in.Type())
+		tag := f.tag
+		if f.g.initTag {
+			tag = "init!" + f.fn.Pkg.Pkg.Path() + ":" + tag
+		}
+		f.env[in] = u.mk("alloc", tag+":"+in.Name()+kind, in.Type())
 	case *ssa.FieldAddr:
 		x := f.val(in.X)
 		st := derefStruct(in.X.Type())
@@ -951,9 +1026,18 @@ func (f *frame) instr(b *ssa.BasicBlock, in ssa.Instruction, rc Ref) {
 		st := in.X.Type().Underlying().(*types.Struct)
 		f.env[in] = u.Field(x, st.Field(in.Field).Name(), in.Type())
 	case *ssa.IndexAddr:
-		f.env[in] = u.mk("iaddr", "", in.Type(), f.val(in.X), f.val(in.Index))
+		x := f.val(in.X)
+		// s[i] with s = arr[:] addresses arr[i]
+		if x.Op == "slice" && x.Args[1] == nil && x.Args[3] == nil && x.Args[0].Typ != nil {
+			if pt, ok := x.Args[0].Typ.Underlying().(*types.Pointer); ok {
+				if _, isArr := pt.Elem().Underlying().(*types.Array); isArr {
+					x = x.Args[0]
+				}
+			}
+		}
+		f.env[in] = u.mk("iaddr", "", in.Type(), x, f.val(in.Index))
 	case *ssa.Index:
-		f.env[in] = u.mk("index", "", in.Type(), f.val(in.X), f.val(in.Index))
+		f.env[in] = u.Index(f.val(in.X), f.val(in.Index), in.Type())
 	case *ssa.Lookup:
 		aux := ""
 		if in.CommaOk {
@@ -1055,6 +1139,9 @@ func (f *frame) instr(b *ssa.BasicBlock, in ssa.Instruction, rc Ref) {
 		vals := make([]*E, len(in.Results))
 		for i, r := range in.Results {
 			vals[i] = f.val(r)
+		}
+		if rc == False && len(f.presetPhi) > 0 {
+			return // an iteration of an unrolled loop that cannot return here
 		}
 		f.sum.Rets = append(f.sum.Rets, Ret{Cond: rc, Vals: vals, Pos: in.Pos()})
 	case *ssa.Panic:
@@ -1301,8 +1388,12 @@ func (f *frame) phi(b *ssa.BasicBlock, in *ssa.Phi, rc Ref) *E {
 	}
 	var v *E
 	rel := f.relEdgeConds(b)
+	recs := f.exitRecs[b]
 	for i := len(b.Preds) - 1; i >= 0; i-- {
 		p := b.Preds[i]
+		if _, fromRegion := f.edgeOv[[2]int{p.Index, b.Index}]; fromRegion && len(recs) > 0 {
+			continue // edges from an unrolled region: one record per iteration, merged below
+		}
 		if f.edgeCond(p, b) == False {
 			continue
 		}
@@ -1312,6 +1403,17 @@ func (f *frame) phi(b *ssa.BasicBlock, in *ssa.Phi, rc Ref) *E {
 			v = x
 		} else {
 			v = u.ITE(ec, x, v)
+		}
+	}
+	for _, rec := range recs {
+		x, ok := rec.vals[in]
+		if !ok {
+			continue
+		}
+		if v == nil {
+			v = x
+		} else {
+			v = u.ITE(rec.cond, x, v)
 		}
 	}
 	if v == nil {
@@ -1569,7 +1671,7 @@ func (f *frame) loopDepth(b *ssa.BasicBlock) int {
 // (exists(...) for the early exit, its negation for exhaustion).
 func (f *frame) searchExit(p, b *ssa.BasicBlock) (*Loop, Ref, bool) {
 	l := innermostLoop(f.loopList(), p)
-	if l == nil || l.Blocks[b] {
+	if l == nil || l.Blocks[b] || f.unrolled[l.Header] {
 		return nil, False, false
 	}
 	si := f.searchInfoOf(l)
@@ -1958,4 +2060,456 @@ func (f *frame) builderCall(in ssa.Instruction, name string, args []*E, rc Ref, 
 		return u.mk("void", "", nil), true
 	}
 	return nil, false
+}
+
+// arrayOf: t is an array type small enough to be tracked element by element.
+func arrayOf(t types.Type) (*types.Array, bool) {
+	if t == nil {
+		return nil, false
+	}
+	at, ok := t.Underlying().(*types.Array)
+	if !ok || at.Len() == 0 || at.Len() > 16 {
+		return nil, false
+	}
+	return at, true
+}
+
+// ---- constant package-level tables ----
+
+// constLoad: addr is (an element / field of) a package-level variable that is
+// effectively constant, or of memory allocated by its initialiser: the value
+// the package initialiser stored there.
+func (f *frame) constLoad(addr *E) (*E, bool) {
+	g := f.g
+	root := addr
+	for root.Op == "faddr" || root.Op == "iaddr" {
+		root = root.Args[0]
+	}
+	switch root.Op {
+	case "global":
+		gl := g.globalByName[root.Aux]
+		if gl == nil || !g.isConstGlobal(gl) {
+			return nil, false
+		}
+		g.ensureInit(gl.Pkg)
+	case "alloc":
+		if !strings.HasPrefix(root.Aux, "init!") {
+			return nil, false
+		}
+	default:
+		return nil, false
+	}
+	v, ok := g.initMem[addr.key]
+	return v, ok
+}
+
+// ensureInit evaluates the initialiser of pkg once and keeps the memory it
+// leaves behind (keyed by address expression).
+func (g *Gate) ensureInit(pkg *ssa.Package) {
+	if pkg == nil || g.initDone[pkg] {
+		return
+	}
+	if g.initDone == nil {
+		g.initDone = map[*ssa.Package]bool{}
+		g.initMem = map[string]*E{}
+	}
+	g.initDone[pkg] = true
+	init := pkg.Func("init")
+	if init == nil || init.Blocks == nil {
+		return
+	}
+	saveInline, saveSearch, saveUnroll, saveSubs, saveTop, saveStack := g.Inline, g.Search, g.Unroll, g.Subs, g.Top, g.stack
+	g.Inline = func(_, _ *ssa.Function, _ int) bool { return false }
+	g.Search, g.Unroll, g.noHavoc = false, false, true
+	g.stack = []*ssa.Function{nil} // not the top activation
+	g.initTag = true
+	m := &mem{m: map[string]*E{}}
+	g.eval(init, nil, nil, m, True)
+	g.initTag = false
+	g.Inline, g.Search, g.Unroll, g.Subs, g.Top, g.stack, g.noHavoc = saveInline, saveSearch, saveUnroll, saveSubs, saveTop, saveStack, false
+	for k, v := range m.m {
+		// strip the forwarding prefix ("H:" / "L:")
+		if i := strings.Index(k, ":"); i >= 0 {
+			g.initMem[k[i+1:]] = v
+		}
+	}
+}
+
+// isConstGlobal: the variable is never stored to outside its package
+// initialiser, nothing is stored through it, and its value is only read
+// (indexed, ranged over, measured, passed to side-effect-free library
+// functions or used as a method receiver of such).
+func (g *Gate) isConstGlobal(gl *ssa.Global) bool {
+	if v, ok := g.constGl[gl]; ok {
+		return v
+	}
+	if g.constGl == nil {
+		g.constGl = map[*ssa.Global]bool{}
+	}
+	ok := true
+	var readOnly func(v ssa.Value, depth int) bool
+	readOnly = func(v ssa.Value, depth int) bool {
+		if depth > 5 {
+			return false
+		}
+		rs := v.Referrers()
+		if rs == nil {
+			return true
+		}
+		for _, r := range *rs {
+			switch r := r.(type) {
+			case *ssa.DebugRef, *ssa.Range, *ssa.Index, *ssa.Lookup, *ssa.Field, *ssa.BinOp:
+			case *ssa.UnOp:
+				// a load of an element: its own value is a copy
+			case *ssa.IndexAddr, *ssa.FieldAddr, *ssa.Slice:
+				if !readOnly(r.(ssa.Value), depth+1) {
+					return false
+				}
+			case *ssa.Store:
+				if r.Addr == v {
+					return false // written through
+				}
+				// stored as a value somewhere else: may be modified through the copy only for
+				// reference types
+				if isRefType(v.Type()) {
+					return false
+				}
+			case *ssa.Phi:
+				if !readOnly(r, depth+1) {
+					return false
+				}
+			case ssa.CallInstruction:
+				cc := r.Common()
+				if b, isB := cc.Value.(*ssa.Builtin); isB && (b.Name() == "len" || b.Name() == "cap") {
+					continue
+				}
+				cal := cc.StaticCallee()
+				if cal == nil || !IsPureLib(calleeName(cal)) {
+					return false
+				}
+			default:
+				return false
+			}
+		}
+		return true
+	}
+	for _, fn := range g.P.AllLibFuncs() {
+		isInit := fn.Name() == "init" && fn.Pkg == gl.Pkg
+		eachInstr(fn, func(_ *ssa.BasicBlock, in ssa.Instruction) {
+			for _, op := range in.Operands(nil) {
+				if op == nil || *op != ssa.Value(gl) {
+					continue
+				}
+				switch x := in.(type) {
+				case *ssa.Store:
+					if x.Addr == ssa.Value(gl) && !isInit {
+						ok = false
+					}
+					if x.Val == ssa.Value(gl) {
+						ok = false // address escapes
+					}
+				case *ssa.UnOp:
+					if !isInit && !readOnly(x, 0) {
+						ok = false
+					}
+				case *ssa.IndexAddr, *ssa.FieldAddr:
+					if !isInit && !readOnly(in.(ssa.Value), 0) {
+						ok = false
+					}
+				case *ssa.DebugRef:
+				default:
+					if !isInit {
+						ok = false
+					}
+				}
+			}
+		})
+	}
+	g.constGl[gl] = ok
+	return ok
+}
+
+// ---- unrolling of loops over small constant ranges ----
+
+type exitRec struct {
+	cond Ref
+	vals map[*ssa.Phi]*E
+}
+
+// tryUnroll evaluates the loop headed by h iteration by iteration when its
+// trip count is a small constant: the header tests φ+1 < N or φ < N with φ
+// starting at a constant and stepping by one, N a constant (the length of a
+// constant table).  The region evaluated per iteration is the loop plus the
+// single-predecessor chains its exits lead to (early returns); the blocks
+// where control merges again get one record per iteration and edge.
+func (f *frame) tryUnroll(h *ssa.BasicBlock) (map[*ssa.BasicBlock]bool, bool) {
+	u := f.g.U
+	var l *Loop
+	for _, x := range f.loopList() {
+		if x.Header == h {
+			l = x
+		}
+	}
+	if l == nil {
+		return nil, false
+	}
+	// no loop nested inside (its cut symbols would be shared between iterations)
+	for _, x := range f.loopList() {
+		if x != l && l.Blocks[x.Header] {
+			return nil, false
+		}
+	}
+	iff, ok := h.Instrs[len(h.Instrs)-1].(*ssa.If)
+	if !ok {
+		return nil, false
+	}
+	cmp, ok := iff.Cond.(*ssa.BinOp)
+	if !ok || cmp.Op != token.LSS {
+		return nil, false
+	}
+	var ph *ssa.Phi
+	switch x := cmp.X.(type) {
+	case *ssa.Phi:
+		ph = x
+	case *ssa.BinOp:
+		if p, isP := x.X.(*ssa.Phi); isP && x.Op == token.ADD && isConstInt(x.Y, 1) {
+			ph = p
+		}
+	}
+	if ph == nil || ph.Block() != h || !stepsExactlyOne(l, ph) {
+		return nil, false
+	}
+	bound := f.val(cmp.Y)
+	N, okN := bound.IntVal()
+	if !okN || N < 0 || N > 8 {
+		return nil, false
+	}
+	// entry values of the header φs
+	var phis []*ssa.Phi
+	for _, in := range h.Instrs {
+		if p, isP := in.(*ssa.Phi); isP {
+			phis = append(phis, p)
+		}
+	}
+	cur := map[*ssa.Phi]*E{}
+	var alive Ref = False
+	for i, p := range h.Preds {
+		if f.back[[2]int{p.Index, h.Index}] {
+			continue
+		}
+		c := f.edgeCond(p, h)
+		if c == False {
+			continue
+		}
+		alive = u.bdd.Or(alive, c)
+		for _, phx := range phis {
+			v := f.val(phx.Edges[i])
+			if old, have := cur[phx]; have {
+				cur[phx] = u.ITE(c, v, old)
+			} else {
+				cur[phx] = v
+			}
+		}
+	}
+	if cur[ph] == nil {
+		return nil, false
+	}
+	if c0, isC := cur[ph].IntVal(); !isC || c0 < -1 || c0 > 0 {
+		return nil, false
+	}
+	// region: the loop and the single-predecessor chains behind its exits
+	region := map[*ssa.BasicBlock]bool{}
+	for b := range l.Blocks {
+		region[b] = true
+	}
+	for changed := true; changed; {
+		changed = false
+		for _, b := range f.fn.Blocks {
+			if region[b] || len(b.Preds) != 1 || !region[b.Preds[0]] {
+				continue
+			}
+			region[b] = true
+			changed = true
+		}
+	}
+	var body []*ssa.BasicBlock
+	for _, b := range f.order {
+		if region[b] && b != h {
+			body = append(body, b)
+		}
+	}
+	// snapshot for giving up
+	memSnap := map[string]*E{}
+	for k, v := range f.mem.m {
+		memSnap[k] = v
+	}
+	nEff, nRet, pan := len(f.sum.Effects), len(f.sum.Rets), f.sum.Panics
+	restore := func() {
+		f.mem.m = memSnap
+		f.sum.Effects = f.sum.Effects[:nEff]
+		f.sum.Rets = f.sum.Rets[:nRet]
+		f.sum.Panics = pan
+		f.presetPhi = nil
+		for b := range region {
+			delete(f.rc, b)
+		}
+	}
+	if f.presetPhi == nil {
+		f.presetPhi = map[*ssa.Phi]*E{}
+	}
+	ovSum := map[[2]int]Ref{}
+	recs := map[*ssa.BasicBlock][]exitRec{}
+	type phiAt struct {
+		cond Ref
+		vals map[*ssa.Phi]*E
+	}
+	var atExit []phiAt
+	for iter := int64(0); ; iter++ {
+		if iter > N+1 {
+			restore()
+			return nil, false
+		}
+		for _, phx := range phis {
+			f.presetPhi[phx] = cur[phx]
+		}
+		for b := range region {
+			delete(f.relCache, b) // join conditions inside the body are per iteration
+		}
+		// header
+		f.rc[h] = alive
+		f.curRC, f.curBlock = alive, h
+		for _, in := range h.Instrs {
+			f.instr(h, in, f.curRC)
+		}
+		for _, b := range body {
+			f.block(b)
+		}
+		// edges leaving the region
+		snapshot := map[*ssa.Phi]*E{}
+		for _, phx := range phis {
+			snapshot[phx] = cur[phx]
+		}
+		leaving := False
+		for _, b := range append([]*ssa.BasicBlock{h}, body...) {
+			for _, t := range b.Succs {
+				if region[t] {
+					continue
+				}
+				c := f.edgeCondRaw(b, t)
+				if c == False {
+					continue
+				}
+				key := [2]int{b.Index, t.Index}
+				ovSum[key] = u.bdd.Or(ovSum[key], c)
+				leaving = u.bdd.Or(leaving, c)
+				vals := map[*ssa.Phi]*E{}
+				for _, in := range t.Instrs {
+					tp, isP := in.(*ssa.Phi)
+					if !isP {
+						break
+					}
+					for i, p := range t.Preds {
+						if p == b {
+							vals[tp] = f.val(tp.Edges[i])
+						}
+					}
+				}
+				recs[t] = append(recs[t], exitRec{cond: c, vals: vals})
+			}
+		}
+		if leaving != False {
+			atExit = append(atExit, phiAt{leaving, snapshot})
+		}
+		// next iteration
+		next := map[*ssa.Phi]*E{}
+		var nextAlive Ref = False
+		for i, p := range h.Preds {
+			if !f.back[[2]int{p.Index, h.Index}] {
+				continue
+			}
+			c := f.edgeCondRaw(p, h)
+			if c == False {
+				continue
+			}
+			nextAlive = u.bdd.Or(nextAlive, c)
+			for _, phx := range phis {
+				v := f.val(phx.Edges[i])
+				if old, have := next[phx]; have {
+					next[phx] = u.ITE(c, v, old)
+				} else {
+					next[phx] = v
+				}
+			}
+		}
+		if nextAlive == False {
+			break
+		}
+		alive, cur = nextAlive, next
+	}
+	f.presetPhi = nil
+	if f.edgeOv == nil {
+		f.edgeOv = map[[2]int]Ref{}
+		f.exitRecs = map[*ssa.BasicBlock][]exitRec{}
+	}
+	// edges of the region that were never taken are dead
+	for b := range region {
+		for _, t := range b.Succs {
+			if !region[t] {
+				key := [2]int{b.Index, t.Index}
+				f.edgeOv[key] = ovSum[key]
+			}
+		}
+	}
+	for t, rs := range recs {
+		f.exitRecs[t] = append(f.exitRecs[t], rs...)
+	}
+	// the header φs as seen after the loop: their value when the region was left
+	for _, phx := range phis {
+		var v *E
+		for _, a := range atExit {
+			if v == nil {
+				v = a.vals[phx]
+			} else {
+				v = u.ITE(a.cond, a.vals[phx], v)
+			}
+		}
+		if v != nil {
+			f.env[phx] = v
+		}
+	}
+	// header values derived from the φs, for uses after the loop
+	total := False
+	for _, a := range atExit {
+		total = u.bdd.Or(total, a.cond)
+	}
+	saveRC := f.rc[h]
+	for _, in := range h.Instrs {
+		if _, isP := in.(*ssa.Phi); isP {
+			continue
+		}
+		switch in.(type) {
+		case *ssa.If, *ssa.Jump:
+			continue
+		}
+		if _, isCall := in.(ssa.CallInstruction); isCall {
+			continue
+		}
+		f.instr(h, in, total)
+	}
+	f.rc[h] = saveRC
+	if f.unrolled == nil {
+		f.unrolled = map[*ssa.BasicBlock]bool{}
+	}
+	f.unrolled[h] = true
+	return region, true
+}
+
+// edgeCondRaw is edgeCond without the overrides of unrolled regions.
+func (f *frame) edgeCondRaw(p, b *ssa.BasicBlock) Ref {
+	u := f.g.U
+	rcP, ok := f.rc[p]
+	if !ok {
+		return False
+	}
+	return u.bdd.And(rcP, f.localCond(p, b))
 }
